@@ -59,6 +59,17 @@ def check(ctx):
     from rules.c11 import check_cbor_bstr, check_is_empty
     check_cbor_bstr(ctx, "R-1")
     check_is_empty(ctx, "R-1")
+    # the header encoder emits the typed fields in label order, so a decoded header that holds both an IV and a Partial IV
+    # re-encodes to a map the decoder rejects in wire order 5, 6: the decoder's exclusion must hold for BOTH wire orders
+    # (C08 R-2's truth table over the loop body, under this property)
+    from rules import c08 as _c08
+    from lib.mapcodec import MapDecoder as _MD
+    _hd = prog.fn(_c08.DEC)
+    _md = _MD(prog, _hd)
+    if _md.problem:
+        ctx.cannot("R-1", "iv-exclusion:decoder-shape", "%s: %s" % (_c08.DEC, _md.problem), where=_hd.span)
+    else:
+        _c08.check_iv_exclusion(ctx.under("R-1", "iv-exclusion"), _md, "R-2")
     # "for every byte string b": the byte-level API is the trait defaults composed with the Value-level codecs checked above;
     # no type overrides them (an overriding `ProtectedHeader::from_slice` that retains its input makes decode(encode(v)) != v)
     from rules import c13
@@ -475,3 +486,4 @@ def _misc_pairs(ctx):
     ctx.ob("R-1", "pair:%s" % ty, not problems, "CoseKdfContext: the four fixed slots are inverse tables (the variable tail is C18 R-kdf)",
            where=d.span, detail={"problems": problems})
     return n
+META["decides"] += ' R-1 also re-checks that the header decoder refuses IV together with Partial IV in either wire order (C08 R-2): the encoder emits them in label order, so an order-dependent exclusion breaks the fixed point.'
